@@ -94,18 +94,27 @@ Section Hexapolar.
     apply FunctionalExtensionality.functional_extensionality. intros i. reflexivity.
   Qed.
 
+  Lemma hex_step_length r x y i :
+    length (fst (hex_step r (x, y) i)) = (length x + (Z.to_nat (6 * (i + 1) + 1) - 1))%nat /\
+    length (snd (hex_step r (x, y) i)) = (length y + (Z.to_nat (6 * (i + 1) + 1) - 1))%nat.
+  Proof.
+    unfold hex_step. cbv beta iota zeta. unfold fst, snd.
+    rewrite !app_length, !map_length, !slice_drop_last_length, !linspace_length. split; reflexivity.
+  Qed.
+
   Lemma hex_fold_length r : forall k a x y, (0 <= a)%Z ->
     let res := fold_left (hex_step r) (seqZ a k) (x, y) in
     Z.of_nat (length (fst res)) = (Z.of_nat (length x) + 6 * Z.of_nat k * (a + 1) + 3 * Z.of_nat k * (Z.of_nat k - 1))%Z /\
     Z.of_nat (length (snd res)) = (Z.of_nat (length y) + 6 * Z.of_nat k * (a + 1) + 3 * Z.of_nat k * (Z.of_nat k - 1))%Z.
   Proof.
-    induction k as [|k IH]; intros a x y Ha; cbn [seqZ fold_left].
+    induction k as [|k IH]; intros a x y Ha; cbv zeta; cbn [seqZ fold_left].
     - cbn [fst snd]. lia.
-    - unfold hex_step at 2. cbv zeta.
-      match goal with |- context [fold_left _ _ (?x1, ?y1)] => specialize (IH (a + 1)%Z x1 y1 ltac:(lia)) end.
-      cbv zeta in IH. destruct IH as [IHx IHy]. rewrite IHx, IHy.
-      rewrite !app_length, !map_length, !slice_drop_last_length, !linspace_length.
-      split; nia.
+    - destruct (hex_step_length r x y a) as [Lx Ly].
+      destruct (hex_step r (x, y) a) as [x1 y1]. cbn [fst snd] in Lx, Ly.
+      specialize (IH (a + 1)%Z x1 y1 ltac:(lia)). cbv zeta in IH. destruct IH as [IHx IHy]. rewrite IHx, IHy, Lx, Ly.
+      replace (Z.of_nat (length x + (Z.to_nat (6 * (a + 1) + 1) - 1))) with (Z.of_nat (length x) + 6 * (a + 1))%Z by lia.
+      replace (Z.of_nat (length y + (Z.to_nat (6 * (a + 1) + 1) - 1))) with (Z.of_nat (length y) + 6 * (a + 1))%Z by lia.
+      rewrite Nat2Z.inj_succ. unfold Z.succ. split; ring.
   Qed.
 
   (** hexapolar: 1 + 3 n (n+1) points for n rings *)
@@ -118,7 +127,8 @@ Section Hexapolar.
                                 (zerosZ 1) (zerosZ 1) ltac:(lia)) as H.
     cbv zeta in H. destruct (fold_left _ _ _) as [x y]. cbn [fst snd] in *.
     rewrite !map_length. destruct H as [Hx Hy]. rewrite Hx, Hy, !zerosZ_length.
-    unfold hexapolar_count. replace (Z.of_nat (Z.to_nat (n - 0))) with n by lia. cbn. nia.
+    unfold hexapolar_count. replace (Z.of_nat (Z.to_nat (n - 0))) with n by lia.
+    change (Z.of_nat (Z.to_nat 1)) with 1%Z. split; ring.
   Qed.
 End Hexapolar.
 
@@ -170,3 +180,263 @@ Section GQ.
     - split; [exact Hnone|]. discriminate.
   Qed.
 End GQ.
+
+(** ** Inside the unit disk, and vignetting only shrinks (exact reals) *)
+Section Disk.
+  Notation disk := in_unit_disk.
+
+  Lemma shrink_abs p v : unit_interval v -> Rabs (p * (1 - v)) <= Rabs p.
+  Proof.
+    intros [H0 H1]. rewrite Rabs_mult. rewrite (Rabs_right (1 - v)) by lra.
+    pose proof (Rabs_pos p). nra.
+  Qed.
+
+  Lemma shrink_sq p v : unit_interval v -> (p * (1 - v)) * (p * (1 - v)) <= p * p.
+  Proof. intros [H0 H1]. assert (0 <= p*p) by nra. assert (0 <= (1-v)*(1-v) <= 1) by nra. nra. Qed.
+
+  Lemma disk_shrink x y vx vy : unit_interval vx -> unit_interval vy ->
+    disk (x, y) -> disk (x * (1 - vx), y * (1 - vy)).
+  Proof.
+    unfold disk. cbn [fst snd]. intros Hx Hy H.
+    pose proof (shrink_sq x vx Hx). pose proof (shrink_sq y vy Hy). lra.
+  Qed.
+
+  Lemma combine_map2 {A B C D} (f : A -> C) (g : B -> D) (l : list A) (m : list B) :
+    combine (map f l) (map g m) = map (fun p => (f (fst p), g (snd p))) (combine l m).
+  Proof. revert m; induction l as [|a l IH]; intros [|b m]; cbn; try reflexivity. rewrite IH. reflexivity. Qed.
+
+  Lemma disk_shrink_all (X Y : list R) vx vy : unit_interval vx -> unit_interval vy ->
+    Forall disk (combine X Y) ->
+    Forall disk (combine (map (fun v => v * (1 - vx)) X) (map (fun v => v * (1 - vy)) Y)).
+  Proof.
+    intros Hx Hy H. rewrite combine_map2. apply Forall_map.
+    eapply Forall_impl; [|exact H]. intros [x y] Hd. cbn [fst snd]. apply disk_shrink; assumption.
+  Qed.
+
+  Lemma combine_app_eq {A B} (a b : list A) (c d : list B) : length a = length c ->
+    combine (a ++ b) (c ++ d) = combine a c ++ combine b d.
+  Proof.
+    revert c; induction a as [|x a IH]; intros [|y c] H; cbn in *; try discriminate; [reflexivity|].
+    rewrite IH by lia. reflexivity.
+  Qed.
+
+  Lemma In_seqZ i a n : In i (seqZ a n) -> (a <= i < a + Z.of_nat n)%Z.
+  Proof.
+    revert a; induction n as [|n IH]; intros a H; cbn in H; [contradiction|].
+    destruct H as [<-|H]; [lia|]. apply IH in H. lia.
+  Qed.
+
+  (** np.linspace(a, b, n) stays in [a, b] *)
+  Lemma linspace_range a b n : a <= b -> Forall (fun v => a <= v <= b) (linspace_ (O := ROps) a b n).
+  Proof.
+    intros Hab. unfold linspace_. destruct (Z.to_nat n) as [|[|m]] eqn:E.
+    - constructor.
+    - constructor; [lra|constructor].
+    - apply Forall_app. split; [|constructor; [lra|constructor]].
+      apply Forall_map. apply Forall_forall. intros i Hi. apply In_seqZ in Hi. rops.
+      assert (Hn : (n - 1 = Z.of_nat (S m))%Z) by lia. rewrite Hn.
+      assert (Hm : 0 < IZR (Z.of_nat (S m))) by (apply IZR_lt; lia).
+      assert (Hi0 : 0 <= IZR i) by (apply IZR_le; lia).
+      assert (Hi1 : IZR i <= IZR (Z.of_nat (S m))) by (apply IZR_le; lia).
+      set (M := IZR (Z.of_nat (S m))) in *. set (I := IZR i) in *.
+      assert (Hq : 0 <= I / M <= 1).
+      { split; [apply Rmult_le_pos; [lra|left; apply Rinv_0_lt_compat; lra]|].
+        apply Rmult_le_reg_r with M; [lra|]. unfold Rdiv. rewrite Rmult_assoc, Rinv_l by lra. lra. }
+      replace (I * ((b - a) / M) + a) with (a + (I / M) * (b - a)) by (field; lra). nra.
+  Qed.
+
+  Lemma Forall_zeros n : Forall (fun v => v = 0) (zerosZ (O := ROps) n).
+  Proof. unfold zerosZ. apply Forall_forall. intros v Hv. apply repeat_spec in Hv. exact Hv. Qed.
+
+  Lemma disk_of_axes (X Y : list R) :
+    Forall (fun v => -1 <= v <= 1) X -> Forall (fun v => v = 0) Y ->
+    Forall disk (combine X Y) /\ Forall disk (combine Y X).
+  Proof.
+    intros HX HY. split; apply Forall_forall; intros [p q] Hin.
+    - pose proof (in_combine_l _ _ _ _ Hin) as Hp. pose proof (in_combine_r _ _ _ _ Hin) as Hq.
+      rewrite Forall_forall in HX, HY. specialize (HX _ Hp). specialize (HY _ Hq). subst q.
+      unfold disk; cbn [fst snd]. nra.
+    - pose proof (in_combine_l _ _ _ _ Hin) as Hp. pose proof (in_combine_r _ _ _ _ Hin) as Hq.
+      rewrite Forall_forall in HX, HY. specialize (HX _ Hq). specialize (HY _ Hp). subst p.
+      unfold disk; cbn [fst snd]. nra.
+  Qed.
+
+  Lemma lin_pm1 n : Forall (fun v => -1 <= v <= 1) (linspace_ (O := ROps) (ofZ (-1)) (ofZ 1) n).
+  Proof. rops. apply (linspace_range (-1) 1 n). lra. Qed.
+  Lemma lin_01 n : Forall (fun v => -1 <= v <= 1) (linspace_ (O := ROps) (ofZ 0) (ofZ 1) n).
+  Proof. rops. eapply Forall_impl; [|apply (linspace_range 0 1 n); lra]. cbn. intros; lra. Qed.
+
+  Definition pts (r : list R * list R) : list (R * R) := combine (fst r) (snd r).
+
+  Theorem line_x_in_disk n vx po : unit_interval vx -> Forall disk (pts (k_dist_line_x ROps n vx po)).
+  Proof.
+    intros Hx. unfold pts, k_dist_line_x. cbn [fst snd]. rops.
+    assert (Hy : unit_interval 0) by (unfold unit_interval; lra).
+    assert (E : zerosZ (O := ROps) n = map (fun v => v * (1 - 0)) (zerosZ (O := ROps) n)).
+    { rewrite <- (map_id (zerosZ n)) at 1. apply map_ext. intros; ring. }
+    rewrite E. destruct po; apply disk_shrink_all; try assumption.
+    - exact (proj1 (disk_of_axes _ _ (lin_01 n) (Forall_zeros n))).
+    - exact (proj1 (disk_of_axes _ _ (lin_pm1 n) (Forall_zeros n))).
+  Qed.
+
+  Theorem line_y_in_disk n vy po : unit_interval vy -> Forall disk (pts (k_dist_line_y ROps n vy po)).
+  Proof.
+    intros Hx. unfold pts, k_dist_line_y. cbn [fst snd]. rops.
+    assert (Hy : unit_interval 0) by (unfold unit_interval; lra).
+    assert (E : zerosZ (O := ROps) n = map (fun v => v * (1 - 0)) (zerosZ (O := ROps) n)).
+    { rewrite <- (map_id (zerosZ n)) at 1. apply map_ext. intros; ring. }
+    rewrite E. destruct po; apply disk_shrink_all; try assumption.
+    - exact (proj2 (disk_of_axes _ _ (lin_01 n) (Forall_zeros n))).
+    - exact (proj2 (disk_of_axes _ _ (lin_pm1 n) (Forall_zeros n))).
+  Qed.
+
+  Theorem cross_in_disk n vx vy : unit_interval vx -> unit_interval vy -> Forall disk (pts (k_dist_cross ROps n vx vy)).
+  Proof.
+    intros Hx Hy. unfold pts, k_dist_cross. cbn [fst snd]. rops.
+    apply disk_shrink_all; try assumption.
+    rewrite combine_app_eq by (rewrite (zerosZ_length (O := ROps)), (linspace_length (O := ROps)); reflexivity).
+    apply Forall_app. split.
+    - exact (proj2 (disk_of_axes _ _ (lin_pm1 n) (Forall_zeros n))).
+    - exact (proj1 (disk_of_axes _ _ (lin_pm1 n) (Forall_zeros n))).
+  Qed.
+
+  Lemma circle_in_disk (r : R) (th : list R) : 0 <= r <= 1 ->
+    Forall disk (combine (map (fun v => r * v) (map cos th)) (map (fun v => r * v) (map sin th))).
+  Proof.
+    intros Hr. rewrite !map_map, combine_map2. apply Forall_map. apply Forall_forall. intros [a b] Hin.
+    assert (E : a = b).
+    { clear -Hin. induction th as [|t th IH]; cbn in Hin; [contradiction|]. destruct Hin as [H|H]; [inversion H; reflexivity|auto]. }
+    subst b. unfold disk. cbn [fst snd]. pose proof (sin2_cos2 a) as H. unfold Rsqr in H. nra.
+  Qed.
+
+  Theorem ring_in_disk n vx vy : unit_interval vx -> unit_interval vy -> Forall disk (pts (k_dist_ring ROps n vx vy)).
+  Proof.
+    intros Hx Hy. unfold pts, k_dist_ring. cbn [fst snd]. rops.
+    apply disk_shrink_all; try assumption.
+    set (th := sliceZ _ _ _).
+    pose proof (circle_in_disk 1 th ltac:(lra)) as H.
+    assert (E : forall l : list R, map (fun v => 1 * v) l = l).
+    { intros l. rewrite <- (map_id l) at 2. apply map_ext. intros; ring. }
+    rewrite !E in H. exact H.
+  Qed.
+
+  Theorem random_in_disk vx vy (r th : list R) : unit_interval vx -> unit_interval vy ->
+    Forall unit_interval r -> Forall disk (pts (k_dist_random ROps vx vy r th)).
+  Proof.
+    intros Hx Hy Hr. unfold pts, k_dist_random. cbn [fst snd]. rops.
+    apply disk_shrink_all; try assumption. unfold zip2.
+    revert th. induction r as [|a r IH]; intros [|t th]; cbn; try constructor.
+    - inversion Hr as [|? ? Ha Hr']. subst. unfold disk. cbn [fst snd]. destruct Ha as [Ha0 Ha1].
+      assert (Hs : sqrt a * sqrt a = a) by (apply sqrt_sqrt; exact Ha0).
+      pose proof (sin2_cos2 t) as H. unfold Rsqr in H.
+      replace (sqrt a * cos t * (sqrt a * cos t) + sqrt a * sin t * (sqrt a * sin t))
+        with ((sqrt a * sqrt a) * (sin t * sin t + cos t * cos t)) by ring. rewrite Hs, H. lra.
+    - apply IH. inversion Hr; assumption.
+  Qed.
+End Disk.
+
+Section Disk2.
+  Notation disk := in_unit_disk.
+
+  Lemma getZ_range (l : list R) i : Forall (fun v => 0 <= v <= 1) l -> 0 <= getZ (O := ROps) l i <= 1.
+  Proof.
+    intros H. unfold getZ, nthZ. rops.
+    destruct (_ || _); [lra|].
+    destruct (nth_error l _) as [v|] eqn:E; [|lra].
+    apply nth_error_In in E. rewrite Forall_forall in H. apply H. exact E.
+  Qed.
+
+  Lemma hex_step_length_R (r x y : list R) i :
+    length (fst (hex_step (O := ROps) r (x, y) i)) = (length x + (Z.to_nat (6 * (i + 1) + 1) - 1))%nat /\
+    length (snd (hex_step (O := ROps) r (x, y) i)) = (length y + (Z.to_nat (6 * (i + 1) + 1) - 1))%nat.
+  Proof. exact (hex_step_length (O := ROps) r x y i). Qed.
+
+  Lemma hex_fold_disk r : Forall (fun v => 0 <= v <= 1) r -> forall idx x y,
+    length x = length y -> Forall disk (combine x y) ->
+    let res := fold_left (hex_step (O := ROps) r) idx (x, y) in
+    Forall disk (combine (fst res) (snd res)).
+  Proof.
+    intros Hr. induction idx as [|i idx IH]; intros x y Hl Hd; cbv zeta; cbn [fold_left]; [exact Hd|].
+    destruct (hex_step_length_R r x y i) as [Lx Ly].
+    destruct (hex_step (O := ROps) r (x, y) i) as [x1 y1] eqn:E.
+    cbn [fst snd] in Lx, Ly.
+    apply IH; [rops; rewrite Lx, Ly, Hl; reflexivity|].
+    unfold hex_step in E. injection E as Ex Ey. subst x1 y1. rops.
+    rewrite combine_app_eq by exact Hl. apply Forall_app. split; [exact Hd|].
+    apply circle_in_disk. apply getZ_range. exact Hr.
+  Qed.
+
+  Theorem hexapolar_in_disk n vx vy : unit_interval vx -> unit_interval vy ->
+    Forall disk (pts (k_dist_hexapolar ROps n vx vy)).
+  Proof.
+    intros Hx Hy. unfold pts. rewrite hexapolar_unfold. cbv zeta.
+    pose proof (hex_fold_disk (linspace_ (O := ROps) (ofZ 0) (ofZ 1) (n + 1))) as H.
+    specialize (H ltac:(rops; apply (linspace_range 0 1); lra) (rangeZ 0 n) (zerosZ (O := ROps) 1) (zerosZ (O := ROps) 1) eq_refl).
+    cbv zeta in H. destruct (fold_left _ _ _) as [x y]. cbn [fst snd] in *. rops.
+    apply disk_shrink_all; try assumption. apply H.
+    cbn. constructor; [|constructor]. unfold disk. cbn. lra.
+  Qed.
+
+  Lemma outer_disk (rad th : list R) : Forall (fun v => 0 <= v <= 1) rad ->
+    Forall disk (combine (outer_flat (O := ROps) rad (map cos th)) (outer_flat (O := ROps) rad (map sin th))).
+  Proof.
+    intros Hr. unfold outer_flat. induction rad as [|r rad IH]; cbn [flat_map]; [constructor|].
+    inversion Hr as [|? ? Hr0 Hr']. subst.
+    rewrite combine_app_eq by (rewrite !map_length; reflexivity).
+    apply Forall_app. split; [|apply IH; assumption]. rops.
+    apply circle_in_disk. exact Hr0.
+  Qed.
+
+  Lemma Rlit5 m : (0 <= m <= 100000)%Z -> 0 <= Rlit m (-5) <= 1.
+  Proof.
+    intros [H0 H1]. unfold Rlit. cbn [Z.ltb Z.compare Z.opp]. cbn.
+    apply IZR_le in H0. apply IZR_le in H1.
+    split.
+    - apply Rmult_le_pos; [exact H0|]. left. apply Rinv_0_lt_compat. lra.
+    - apply Rmult_le_reg_r with 100000; [lra|]. unfold Rdiv. rewrite Rmult_assoc, Rinv_l by lra. lra.
+  Qed.
+
+  Lemma gq_radius_range n l : k_dist_gq_radius ROps n = Some l -> Forall (fun v => 0 <= v <= 1) l.
+  Proof.
+    unfold k_dist_gq_radius. rops.
+    destruct (gq_cases n) as [H|[H|[H|[H|[H|[H|[H|H]]]]]]];
+      try (subst n; cbn [existsb Z.eqb Pos.eqb orb negb]; intros E; inversion E;
+           repeat (constructor; [apply Rlit5; lia|]); constructor).
+    - assert (E : existsb (Z.eqb n) [1;2;3;4;5;6]%Z = false).
+      { cbn. repeat (rewrite (proj2 (Z.eqb_neq n _)) by lia). reflexivity. }
+      rewrite E. discriminate.
+    - assert (E : existsb (Z.eqb n) [1;2;3;4;5;6]%Z = false).
+      { cbn. repeat (rewrite (proj2 (Z.eqb_neq n _)) by lia). reflexivity. }
+      rewrite E. discriminate.
+  Qed.
+
+  Theorem gq_in_disk n vx vy sym xs ys : unit_interval vx -> unit_interval vy ->
+    k_dist_gq ROps n vx vy sym = Some (xs, ys) -> Forall disk (combine xs ys).
+  Proof.
+    intros Hx Hy. unfold k_dist_gq. destruct (k_dist_gq_radius ROps n) as [l|] eqn:E; [|discriminate].
+    apply gq_radius_range in E. intros H. inversion H. subst xs ys. rops.
+    apply disk_shrink_all; try assumption.
+    destruct sym.
+    - apply (outer_disk l [Rlit 0 (-1)]). exact E.
+    - apply (outer_disk l [- Rlit 104719755 (-8); Rlit 0 (-1); Rlit 104719755 (-8)]). exact E.
+  Qed.
+
+  (** uniform: the kept grid nodes are those with x^2 + y^2 <= 1 *)
+  Lemma mask_disk : forall X Y : list R,
+    let m := map (fun v => Rleb v 1) (zip2 (O := ROps) Rplus (map (fun v => v * v) X) (map (fun v => v * v) Y)) in
+    Forall disk (combine (mask_filter (O := ROps) X m) (mask_filter (O := ROps) Y m)).
+  Proof.
+    unfold zip2, mask_filter.
+    induction X as [|x X IH]; intros [|y Y]; cbn; try constructor.
+    destruct (Rleb (x * x + y * y) 1) eqn:E; cbn.
+    - constructor; [unfold disk; cbn [fst snd]; apply Rleb_true; exact E|apply IH].
+    - apply IH.
+  Qed.
+
+  Theorem uniform_in_disk n vx vy : unit_interval vx -> unit_interval vy ->
+    Forall disk (pts (k_dist_uniform ROps n vx vy)).
+  Proof.
+    intros Hx Hy. unfold pts, k_dist_uniform. cbn [fst snd]. rops.
+    apply disk_shrink_all; try assumption. apply mask_disk.
+  Qed.
+End Disk2.
